@@ -148,6 +148,15 @@ where
         }
     }
 
+    /// true if somebody is there to answer for this destination: a unit id
+    /// without a handler must never be answered
+    fn is_configured(&mut self, destination: FrameDestination) -> bool {
+        match destination {
+            FrameDestination::UnitId(unit_id) => self.handlers.get(unit_id).is_some(),
+            FrameDestination::Broadcast => true,
+        }
+    }
+
     async fn handle_frame(&mut self, io: &mut PhysLayer, frame: Frame) -> Result<(), RequestError> {
         let mut cursor = ReadCursor::new(frame.payload());
 
@@ -160,6 +169,9 @@ where
                 Some(x) => x,
                 None => {
                     tracing::warn!("received unknown function code: {}", value);
+                    if !self.is_configured(frame.header.destination) {
+                        return Ok(());
+                    }
                     return self
                         .reply_with_error_generic(
                             io,
@@ -176,6 +188,9 @@ where
             Ok(x) => x,
             Err(err) => {
                 tracing::warn!("error parsing {:?} request: {}", function, err);
+                if !self.is_configured(frame.header.destination) {
+                    return Ok(());
+                }
                 return self
                     .reply_with_error(io, frame.header, function, ExceptionCode::IllegalDataValue)
                     .await;
